@@ -438,8 +438,10 @@ def gen_ep(cv, rng, tier):
                 for ln in sorted({0, 1, size - 1, size, size + 1}):
                     cases.append("ep_write_bin %s %s %d %d" % (c, pt_tok(P, rep), pack, ln))
         cases.append("ep_pck %s %s" % (c, pt_tok(P)))
+        cases.append("alias %s ep_pck %s" % (c, pt_tok(P)))
         for bit in (0, 1):
             cases.append("ep_upk %s %s %d" % (c, hx(P[0]), bit))
+            cases.append("alias %s ep_upk %s %d" % (c, hx(P[0]), bit))
     offs = sorted({cv.next_off(s) for s in (0, 1, 2, rng.randrange(p), p - 20 if p > 40 else 3)})
     for x in offs:
         for bit in (0, 1):
@@ -692,6 +694,9 @@ def gen_ep2(pf, pts, rng, tier):
     toks += ["m%x" % rng.randrange(1, n) for _ in range(2 if quick else 10)]
     toks += ["x%x,%x,%x,%x" % (P[0][0], P[0][1], P[1][0], P[1][1]) for P in special]
     for t in toks:
+        if t != "inf":
+            cases.append("alias %s ep2_pck %s" % (c, t))
+            cases.append("alias %s ep2_upk %s" % (c, t))
         for pack in (0, 1):
             size = 1 if t == "inf" else 1 + fb * (2 if pack else 4)
             cases.append("ep2_size_bin %s %s %d" % (c, t, pack))
@@ -773,6 +778,11 @@ def gen_fp2_packed(cv, rng, tier):
             cases.append("fp2_write_bin %s %s %d 1" % (c, tok, ln))
         for byte in (0, 1, 2, 3, 7, 0x80, 0xFF):
             cases.append("fp2_read_bin %s %s" % (c, hb(be(a[0], fb) + bytes([byte]))))
+    for a in us:                                                                # compression in place = out of place
+        tok = "%s,%s" % (hx(a[0]), hx(a[1]))
+        cases.append("alias %s fp2_pck %s" % (c, tok))
+        cases.append("alias %s fp2_upk %s,%d" % (c, hx(a[0]), a[1] & 1))
+        cases.append("alias %s fp2_upk %s,%d" % (c, hx(a[0]), 1 - (a[1] & 1)))
     for a in ((2, 3), (0, 1), (rng.randrange(p), rng.randrange(p))):          # not unitary: written in full
         tok = "%s,%s" % (hx(a[0]), hx(a[1]))
         for ln in (fb + 1, 2 * fb - 1, 2 * fb, 2 * fb + 1):
@@ -801,6 +811,9 @@ def gen_ed(ed, pts, rng, tier):
     toks += ["m%x" % rng.randrange(1, n) for _ in range(3 if quick else 12)]
     toks += ["%x,%x" % P for P in pts[:3]] + ["%x,%x" % ((p - P[0]) % p, P[1]) for P in pts[:3]]
     for t in toks:
+        if t != "inf":
+            cases.append("alias %s ed_pck %s" % (c, t))
+            cases.append("alias %s ed_upk %s" % (c, t))
         for pack in (0, 1):
             size = 1 if t in ("inf", "0,1") else 1 + fb * (1 if pack else 2)
             cases.append("ed_size_bin %s %s %d" % (c, t, pack))
